@@ -8,6 +8,9 @@ CONSTANTS
   MaxSize = 3
   MaxDims = 3
   Trim = TRUE
+  TrOnly = TRUE
+  AxisBy = "dims"
+  QueryCast = "none"
 CONSTRAINT Export
 INVARIANT ImplCountWhenWhole
 INVARIANT ImplCountFloorCeil
